@@ -50,6 +50,8 @@ def one_case(seed, golden, record):
             return I.ids_of(I.query(p, sandbox=sandbox, env={'PYTHONHASHSEED': str(hashseed)} if hashseed is not None else None))
         try: ref = ids('a')
         except RuntimeError as e: return None, ['(project invalid: %s)' % str(e)[-100:]]
+        w = I.check_weak_tools(model, I.query(P.Project(root=os.path.join(base, 'a'))), log)
+        if w: return w, log
         flat = {'%s|%s' % k: v for k, v in sorted(ref.items())}
         if record is not None: record[str(seed)] = flat
         elif golden is not None and str(seed) in golden and golden[str(seed)] != flat:
